@@ -494,6 +494,18 @@ func c09CLI(c *Ctx) {
 			secs = append(secs, []sec{{[]int{6, 1, 1, 0}, pt, fmt.Sprintf("class%d", ci)}})
 		}
 	}
+	// texts that mean something to a routine that prints, formats or parses arguments: printf verbs, a leading dash,
+	// shell and format metacharacters - what comes back from `decrypt` must be the text itself
+	for si, pt := range []string{"15% off", "%s %d %v %q %x %n %!", "100%%", "%", "%!s(MISSING)", "-leading-dash", "--help", "a\\tb \\n \\u0041", "$HOME `id` $(id)", "{{.}} {0} %(x)s", "tab\there", "semi;colon|pipe&amp", "trailing blank ", "LIKE '%x%'"} {
+		no++
+		if !c.Mine(no) {
+			continue
+		}
+		in := LO("t", LO("$date", LS("2024-05-01T10:00:00.123+00:00")), "s", LS("I"), "c", LS("COMMAND"), "id", LN("1"), "ctx", LS("c"), "msg", LS("Slow query"),
+			"attr", LO("ns", LS("d.c"), "command", LO("find", LS("c"), "filter", LO("fld", LS(pt)), "$db", LS("d"))))
+		lines = append(lines, in.JSON())
+		secs = append(secs, []sec{{[]int{6, 1, 1, 0}, pt, fmt.Sprintf("special%d", si)}})
+	}
 	if len(lines) == 0 {
 		return
 	}
